@@ -49,6 +49,8 @@ int main(int argc, char **argv)
 				if (!strcmp(iface, "dgst")) rc = sm2_verify(&key, dg, sig, sigl);
 				else if (!strcmp(iface, "do")) { SM2_SIGNATURE s; memcpy(s.r, sig, 32); memcpy(s.s, sig + 32, 32); rc = sm2_do_verify(&key, dg, &s); }
 				else { SM2_VERIFY_CTX c; rc = sm2_verify_init(&c, &key, (char *)id, idl);
+					// prejunk: the context first absorbs other bytes and is then reset -- the verdict must be the one for the message alone
+					{ size_t jl; uint8_t *junk = kv_hex(&kv, "prejunk", &jl); if (rc == 1 && junk && jl) { sm2_verify_update(&c, junk, jl); rc = sm2_verify_reset(&c); } }
 					size_t off = 0; for (int i = 0; i <= nch && rc == 1; i++) { size_t n = i < nch ? (size_t)chunks[i] : msgl - off; if (off + n > msgl) n = msgl - off; if (n || i < nch) rc = sm2_verify_update(&c, msg + off, n) == 1 || n == 0 ? 1 : -1; off += n; }
 					if (rc == 1) rc = sm2_verify_finish(&c, sig, sigl); }
 			} else rc = -50;
@@ -80,6 +82,7 @@ int main(int argc, char **argv)
 					if (rc == 1) { do { rc = sm2_do_encrypt_ex(&key, &pre[slot], msg, msgl, &c); } while (rc == 0 && ++slot < SM2_ENC_PRE_COMP_NUM); slotused = slot; }
 					if (rc == 1) { uint8_t *p = out; ol = 0; rc = sm2_ciphertext_to_der(&c, &p, &ol); } }
 				else { SM2_ENC_CTX c; rc = sm2_encrypt_init(&c);
+					{ size_t jl; uint8_t *junk = kv_hex(&kv, "prejunk", &jl); if (rc == 1 && junk && jl) { sm2_encrypt_update(&c, junk, jl); rc = sm2_encrypt_reset(&c); } }
 					size_t off = 0; for (int i = 0; i <= nch && rc == 1; i++) { size_t n = i < nch ? (size_t)chunks[i] : msgl - off; if (off + n > msgl) n = msgl - off; if (n) rc = sm2_encrypt_update(&c, msg + off, n); off += n; }
 					if (rc == 1) rc = sm2_encrypt_finish(&c, &key, out, &ol); }
 			} else rc = -50;
@@ -90,6 +93,7 @@ int main(int argc, char **argv)
 				if (!strcmp(iface, "der")) rc = sm2_decrypt(&key, ct, ctl, out, &ol);
 				else if (!strcmp(iface, "do")) { SM2_CIPHERTEXT c; const uint8_t *p = ct; size_t l = ctl; rc = sm2_ciphertext_from_der(&c, &p, &l); if (rc == 1 && l) rc = -3; if (rc == 1) rc = sm2_do_decrypt(&key, &c, out, &ol); }
 				else { SM2_DEC_CTX c; rc = sm2_decrypt_init(&c);
+					{ size_t jl; uint8_t *junk = kv_hex(&kv, "prejunk", &jl); if (rc == 1 && junk && jl) { sm2_decrypt_update(&c, junk, jl); rc = sm2_decrypt_reset(&c); } }
 					size_t off = 0; for (int i = 0; i <= nch && rc == 1; i++) { size_t n = i < nch ? (size_t)chunks[i] : ctl - off; if (off + n > ctl) n = ctl - off; if (n) rc = sm2_decrypt_update(&c, ct + off, n); off += n; }
 					if (rc == 1) rc = sm2_decrypt_finish(&c, &key, out, &ol); }
 			}
